@@ -708,7 +708,7 @@ func (w *Wallet) createSwapRequest(proofs cashu.Proofs, mint *walletMint) (swapR
 
 func swap(mint string, swapRequest swapRequestPayload) (cashu.Proofs, error) {
 	request := nut03.PostSwapRequest{
-		Inputs:  swapRequest.inputs,
+		Inputs:  proofsWithoutDLEQ(swapRequest.inputs),
 		Outputs: swapRequest.outputs,
 	}
 	swapResponse, err := client.PostSwap(mint, request)
@@ -925,7 +925,7 @@ func (w *Wallet) Melt(quoteId string) (*nut05.PostMeltQuoteBolt11Response, error
 
 	meltBolt11Request := nut05.PostMeltBolt11Request{
 		Quote:   quote.QuoteId,
-		Inputs:  proofs,
+		Inputs:  proofsWithoutDLEQ(proofs),
 		Outputs: outputs,
 	}
 	meltBolt11Response, err := client.PostMeltBolt11(mint.mintURL, meltBolt11Request)
@@ -1190,7 +1190,7 @@ func (w *Wallet) swapProofs(proofs cashu.Proofs, from, to *walletMint) (uint64, 
 	}
 
 	// request from mint to pay invoice from the mint quote request
-	meltBolt11Request := nut05.PostMeltBolt11Request{Quote: meltQuoteResponse.Quote, Inputs: proofs}
+	meltBolt11Request := nut05.PostMeltBolt11Request{Quote: meltQuoteResponse.Quote, Inputs: proofsWithoutDLEQ(proofs)}
 	meltBolt11Response, err := client.PostMeltBolt11(from.mintURL, meltBolt11Request)
 	if err != nil {
 		return 0, fmt.Errorf("error melting token: %v", err)
@@ -1450,7 +1450,7 @@ func (w *Wallet) swapToSend(
 	cashu.SortBlindedMessages(blindedMessages, secrets, rs)
 
 	// call swap endpoint
-	swapRequest := nut03.PostSwapRequest{Inputs: proofsToSwap, Outputs: blindedMessages}
+	swapRequest := nut03.PostSwapRequest{Inputs: proofsWithoutDLEQ(proofsToSwap), Outputs: blindedMessages}
 	swapResponse, err := client.PostSwap(mint.mintURL, swapRequest)
 	if err != nil {
 		return nil, err
@@ -1746,6 +1746,19 @@ func blindedMessagesFromSpendingCondition(
 	}
 
 	return blindedMessages, secrets, rs, nil
+}
+
+// proofsWithoutDLEQ returns a copy of the proofs without their DLEQ proofs.
+// The DLEQ proof stored with a proof includes the blinding factor r, which would let the mint
+// link the proof to the blinded message it signed. It is only meant for the receiver of a token
+// so it must never be part of the inputs sent to the mint.
+func proofsWithoutDLEQ(proofs cashu.Proofs) cashu.Proofs {
+	inputs := make(cashu.Proofs, len(proofs))
+	for i, proof := range proofs {
+		proof.DLEQ = nil
+		inputs[i] = proof
+	}
+	return inputs
 }
 
 // constructProofs unblinds the blindedSignatures and returns the proofs
